@@ -18,3 +18,30 @@ TEXT = {
 }
 NOT_YET = {p: "check under construction in this session (model and theorems exist in coq/, correspondence stream not yet registered)" for p in
            ["C01", "C02", "C03", "C04", "C05", "C06", "C07", "C10", "C12", "C13", "C14", "C15", "C16", "C17", "C19", "C20"]}
+
+BYTE_NOTE = ("trusted: Coq kernel; the harness (Go generators, TLV splitter, stdlib crypto checks); encoding/asn1 conventions are modelled (GoAsn1-style combinators in Model/Asn1.v, X509.v) and tied byte-exactly on every generated certificate; "
+             "random material (serial, key, signature, clock) is observed from the implementation's output and fed to the model")
+TEXT.update({
+ "C02": {"technique": "Coq proofs (DER round trips D1/D2, strict X.509 parser accepts every generated certificate and reads back the typed value; calendar range by lia) + byte-exact differential correspondence",
+         "level": "Theorems C02_generated_parses_back, C02_parse_is_canonical, DER/time round trips, serial bound: for every configuration and oracle draw the model's certificate is canonical DER that the independent strict parser maps back to the same typed certificate. "
+                  "Tie: the model must reproduce every certificate the real code writes byte for byte; the extracted strict parser and the C02 shape rules run on the implementation's bytes.", "note": BYTE_NOTE},
+ "C03": {"technique": "Coq proofs (subject grammar parse = written pairs reversed; generated fields = configured fields) + byte-exact differential correspondence with and without profiles",
+         "level": "Theorems C03_subject_grammar and C03_fields_from_config for all subjects in the documented grammar / all configurations. Tie: byte-exact certificates for subjects over every short name, custom OIDs and non-ASCII values, with and without constraining profiles, serial and unique-id boundaries.", "note": BYTE_NOTE},
+ "C04": {"technique": "Coq proofs (date parsing for every valid calendar date, UTC conversion calendar-valid for every offset by lia, time round trip) + byte-exact correspondence over date grids x zones",
+         "level": "Theorems C04_date_parse, C04_validity_time_is_calendar_valid, C04_time_roundtrip over all dates/offsets. Tie: notBefore/notAfter bytes of real certificates for month/day grids, carrying durations, certificate/profile validity combinations under four (thorough: eight) TZ settings.",
+         "note": BYTE_NOTE + "; Go's AddDate/Date normalisation is modelled (Time.add_date), zone offsets are an oracle transcript from Go's time package"},
+ "C05": {"technique": "Coq proofs over the finite name tables (lifted vm_compute sweeps) + exhaustive 14 x 9 table correspondence through real configs",
+         "level": "Theorems C05_key_table, C05_default_signature_scheme, C05_spki_algorithm_* over the full (finite) schema enums. Tie: every key algorithm x every signature algorithm (and omitted) for roots, every subject key type under every issuer key type; SPKI algorithm/curve compared with the table, key size measured.",
+         "note": BYTE_NOTE + "; key generation itself is an oracle (crypto/*, keybase brainpool)"},
+ "C06": {"technique": "Coq proofs (extension list = compiled effective list in order; base64 round trip by induction; raw values of any length) + byte-exact correspondence over payload lengths and merged lists",
+         "level": "Theorems C06_extensions_in_order, C06_base64_roundtrip, C06_raw_binary_any_length for all lists / all payloads. Tie: byte-exact certificates for payload lengths 1..1100 and up to 64 KiB, every kind x critical x raw form, lists of 0-12 extensions, profile-merged lists incl. content-less entries (must fail).", "note": BYTE_NOTE},
+ "C07": {"technique": "Coq proofs: one decoder-inverts-encoder theorem per extension kind against RFC 5280/6960 decoders written independently (Spec/ExtSpec.v, PolicySpec.v) + byte-exact correspondence",
+         "level": "Theorems C07_* for keyUsage (all 2^7 sets), basicConstraints, SKI, AKI (hash / explicit), EKU, SAN, AIA, certificatePolicies. Tie: byte-exact extension values inside real certificates for all key-usage subsets, ca x pathLen, SAN lists, key ids 1..64 octets, all qualifier shapes.",
+         "note": BYTE_NOTE + "; recorded findings F5 (pathLen 0 cannot be expressed) and F22 (empty userNotice) are excluded from the generators and kept in known_findings.json"},
+ "C16": {"technique": "Coq proof (admission encoder inverted by a CommonPKI AdmissionSyntax decoder written from the specification) + byte-exact correspondence over admission trees",
+         "level": "Theorem C16_admission_decodes for every admission tree. Tie: byte-exact admission extension values for systematic trees (authority kinds x naming authorities x optional-member subsets) and random ones; string-type violations must be errors.", "note": BYTE_NOTE},
+ "C19": {"technique": "Coq proof (manipulated certificate = unmanipulated one with exactly the named fields replaced) + byte-exact correspondence over all 64 subsets + stdlib signature verification",
+         "level": "Theorem C19_manipulations_exact for all configurations. Tie: byte-exact certificates for all 2^6 subsets of manipulation keys on subordinates and roots; the signature is verified with the standard library over the raw (manipulated) TBS bytes; values that do not convert must be errors.", "note": BYTE_NOTE},
+})
+for _p in list(NOT_YET):
+    if _p in TEXT: del NOT_YET[_p]
